@@ -61,6 +61,10 @@ func gen(g *mon.Gen) {
 
 func run(ci any, r *mon.Rec) {
 	c := ci.(*Case)
+	if clientx.TooManyHangs() {
+		r.NoteAdd("cases_skipped_after_3_hangs", 1)
+		return
+	}
 	rng := rand.New(rand.NewSource(c.Seed))
 	req, _, reply, err := c07.Build(rng, c.Client, c.FC, c.Size, c.Exc)
 	if err != nil {
